@@ -252,6 +252,9 @@ func GenOwn(seed int64, idx int, tier string) *Plan {
 	p := &Plan{Family: "own", Seed: seed*5000011 + int64(idx), Targets: map[string]TargetScript{}, QuantumMs: 100, SettleMs: 6000, Burst: true}
 	p.Urgent = rng.Intn(3) > 0
 	pickSched(rng, p)
+	if idx%4 == 3 {
+		p.Burst = false // fully controlled: validated against the design model spec/Own.tla
+	}
 	hostsets := [][]string{{"h.test"}, {"h.test", "g.test"}, {"g.test"}, {"*.test"}, {}}
 	pathsets := [][]string{{}, {"/api"}, {"/", "/api"}}
 	tn, cn := 0, 0
@@ -381,6 +384,11 @@ func GenSnap(seed int64, idx int, tier string) *Plan {
 	if rng.Intn(2) == 0 {
 		p.SnapSpin = 300 + rng.Intn(1500)
 		p.BurstEvery = 2
+	}
+	if idx%4 == 3 {
+		// fully controlled scenarios: their internal events are validated against the design model of the
+		// snapshot writer (spec/Snap.tla), which needs the steps of one goroutine to be adjacent in the log
+		p.Burst, p.SnapSpin, p.BurstEvery = false, 0, 0
 	}
 	tn, cn := 0, 0
 	newTarget := func() string {
